@@ -319,9 +319,79 @@ def run_mutant(repo, m):
     shutil.rmtree(d, ignore_errors=True)
 
 
-def run_roundtrip(repo, pid):
+class _KwRev(__import__('ast').NodeTransformer):
+  """keyword arguments of every call in reverse order"""
+
+  def visit_Call(self, n):
+    self.generic_visit(n)
+    if len(n.keywords) > 1 and all(k.arg for k in n.keywords):
+      n.keywords = list(reversed(n.keywords))
+    return n
+
+
+class _EqSwap(__import__('ast').NodeTransformer):
+  """a == b  ->  b == a   (and !=)"""
+
+  def visit_Compare(self, n):
+    import ast
+    self.generic_visit(n)
+    if len(n.ops) == 1 and isinstance(n.ops[0], (ast.Eq, ast.NotEq)):
+      n.left, n.comparators = n.comparators[0], [n.left]
+    return n
+
+
+class _Noop(__import__('ast').NodeTransformer):
+  """an unused local bound at the top of every function (not where locals()
+  is captured: there an extra local changes behaviour)"""
+
+  def visit_FunctionDef(self, n):
+    import ast
+    self.generic_visit(n)
+    if any(isinstance(c, ast.Call) and getattr(c.func, 'id', '') == 'locals'
+           for c in ast.walk(n)):
+      return n
+    body = n.body
+    i = 1 if body and isinstance(body[0], ast.Expr) and isinstance(
+        body[0].value, ast.Constant) else 0
+    n.body = body[:i] + [ast.parse('_unused_marker = None').body[0]] + body[i:]
+    return n
+
+
+class _IfInvert(__import__('ast').NodeTransformer):
+  """if c: A else: B  ->  if not c: B else: A ; same for conditional
+  expressions"""
+
+  def visit_If(self, n):
+    import ast
+    self.generic_visit(n)
+    if n.orelse and not (len(n.orelse) == 1 and isinstance(n.orelse[0],
+                                                           ast.If)):
+      t = n.test
+      n.test = t.operand if isinstance(t, ast.UnaryOp) and isinstance(
+          t.op, ast.Not) else ast.UnaryOp(op=ast.Not(), operand=t)
+      n.body, n.orelse = n.orelse, n.body
+    return n
+
+  def visit_IfExp(self, n):
+    import ast
+    self.generic_visit(n)
+    n.test = ast.UnaryOp(op=ast.Not(), operand=n.test)
+    n.body, n.orelse = n.orelse, n.body
+    return n
+
+
+GLOBAL_NEUTRALS = [('ast.unparse round trip', None),
+                   ('two-armed ifs and conditional expressions inverted',
+                    _IfInvert),
+                   ('keyword arguments reversed', _KwRev),
+                   ('== / != operands swapped', _EqSwap),
+                   ('unused local at the top of every function', _Noop)]
+
+
+def run_roundtrip(repo, pid, transformer=None):
   """Global neutral variant: every module re-printed by ast.unparse (all
-  formatting, comments and parenthesisation changed, nothing else)."""
+  formatting, comments and parenthesisation changed), optionally after a
+  behaviour-preserving tree transformation."""
   import ast
   d = _scratch(repo)
   try:
@@ -331,8 +401,11 @@ def run_roundtrip(repo, pid):
         path = os.path.join(pkg, fn)
         with open(path) as f:
           src = f.read()
+        tree = ast.parse(src)
+        if transformer is not None:
+          tree = ast.fix_missing_locations(transformer().visit(tree))
         with open(path, 'w') as f:
-          f.write(ast.unparse(ast.parse(src)) + '\n')
+          f.write(ast.unparse(tree) + '\n')
     p = subprocess.run([PY, os.path.join(HERE, 'check.py'), pid, '--repo', d,
                         '--no-evidence'], stdout=subprocess.PIPE,
                        stderr=subprocess.STDOUT, text=True)
@@ -368,14 +441,17 @@ def audit(pid, repo, verbose=True):
         bad += 1
         print('AUDIT-MISS %s mutant not reported by %s: %s [%s]' % (
             pid, m[4], m[5], status))
-  rc, out = run_roundtrip(repo, pid)
-  stats['neutral'] += 1
-  if rc == 0:
-    stats['neutral_silent'] += 1
-  else:
-    bad += 1
-    print('AUDIT-MISS %s the ast.unparse round trip of the sources raised an '
-          'alarm (rc=%d)' % (pid, rc))
+  with ThreadPoolExecutor(max_workers=4) as ex:
+    outs = list(ex.map(lambda nt: run_roundtrip(repo, pid, nt[1]),
+                       GLOBAL_NEUTRALS))
+  for (name, _), (rc, out) in zip(GLOBAL_NEUTRALS, outs):
+    stats['neutral'] += 1
+    if rc == 0:
+      stats['neutral_silent'] += 1
+    else:
+      bad += 1
+      print('AUDIT-MISS %s global neutral variant "%s" raised an alarm '
+            '(rc=%d)' % (pid, name, rc))
   print('AUDIT %s mutants_applied=%d detected=%d neutral_variants=%d '
         'silent=%d' % (pid, stats['applied'], stats['detected'],
                        stats['neutral'], stats['neutral_silent']))
